@@ -728,6 +728,52 @@ var c01FrontCuePinned = []frontCuePinned{
 #Anything: _
 plain: {x: string}
 `, "R", []string{`{"n":"a"}`, `{"n":"a","c":0,"a":"z","tags":["t"],"d":{"a":1},"when":"2021-05-06T07:08:09Z","any":{"x":[1]}}`, `{"n":1}`, `{"n":"a","c":-1}`}},
+	// inside FragCue: every class of the fragment
+	{"cuepinfrag", `
+// the root
+#R: {
+	name: string
+	code?: string & strings.MinRunes(2) & strings.MaxRunes(4)
+	flag: bool
+	n: int32 & >=1 & <=10
+	big?: int64 & >0
+	u?: uint8
+	r?: float64 & >=0.5
+	any?: _
+	when?: time.Time
+	mode?: #M
+	kind: "fixed"
+	seven?: 7
+	on?: true
+	nn?: null | string
+	nr?: null | #P
+	ne?: null | #M
+	tags?: [...string]
+	pts?: [...#P]
+	dict?: {[string]: int64}
+	in: {
+		q: bool
+		w?: [...float64]
+	}
+	next?: #R
+	inline?: "x" | "y"
+}
+#M: "asc" | "desc"
+#P: {
+	x: int64
+	y?: null | float64
+}
+#Count: int64 & >=0
+`, "R", []string{`{"name":"a","flag":true,"n":1,"kind":"fixed","in":{"q":true}}`,
+		`{"name":"a","flag":true,"n":10,"kind":"fixed","in":{"q":true,"w":[1.5]},"code":"abc","big":9007199254740993,"u":255,"r":0.5,"any":{"z":[1,null]},"when":"2021-05-06T07:08:09Z","mode":"desc","seven":7,"on":true,"nn":null,"nr":{"x":1,"y":null},"ne":null,"tags":["t"],"pts":[{"x":2,"y":2.5}],"dict":{"k":3},"next":{"name":"b","flag":false,"n":2,"kind":"fixed","in":{"q":false}},"inline":"y"}`,
+		`{"name":"a","flag":true,"n":11,"kind":"fixed","in":{"q":true}}`, `{"name":"a","flag":true,"n":1,"kind":"other","in":{"q":true}}`,
+		`{"name":"a","flag":true,"n":1,"in":{"q":true}}`, `{"name":"a","flag":true,"n":1,"kind":"fixed","in":{}}`,
+		`{"name":"a","flag":true,"n":1,"kind":"fixed","in":{"q":true},"zz":1}`, `{"name":"a","flag":true,"n":1,"kind":"fixed","in":{"q":true},"code":"a"}`,
+		`{"name":"a","flag":true,"n":1,"kind":"fixed","in":{"q":true},"mode":"up"}`, `{"name":"a","flag":true,"n":1,"kind":"fixed","in":{"q":true},"tags":[]}`,
+		`{"name":"a","flag":true,"n":1,"kind":"fixed","in":{"q":true},"u":256}`, `{"name":"a","flag":true,"n":1,"kind":"fixed","in":{"q":true},"nr":{"y":1.5}}`,
+		`{"name":"a","flag":true,"n":1.5,"kind":"fixed","in":{"q":true}}`, `{"name":null,"flag":true,"n":1,"kind":"fixed","in":{"q":true}}`,
+		`{"name":"a","flag":true,"n":1,"kind":"fixed","in":{"q":true},"seven":8}`, `{"name":"a","flag":true,"n":1,"kind":"fixed","in":{"q":true},"r":0.25}`,
+		`{"name":"a","flag":true,"n":1,"kind":"fixed","in":{"q":true},"when":"yesterday"}`, `[]`, `null`}},
 	// witness of C01_cue_parser_sound_counterexample (lean/Cog/Props/C01.lean): CUE `int` is unbounded, the IR says int64
 	{"cuepinint", `#R: int`, "R", []string{`9223372036854775808`, `9223372036854775807`, `-9223372036854775809`, `1.5`, `"a"`}},
 	{"cuepinerr0", `#R: {nb?: number & <7.25}`, "R", nil},
@@ -870,7 +916,16 @@ func init() {
 			if err != nil {
 				return err
 			}
-			c01FrontCueEmit(out, frontCueCase{ID: "replay", Kind: "replay", Pkg: "replay", Text: string(raw)}, hist)
+			rc := frontCueCase{ID: "replay", Kind: "replay", Pkg: "replay", Text: string(raw), Root: args["root"]}
+			if rc.Root != "" {
+				rc.Docs = []frontDoc{{JV{K: 'z'}, "replay"}}
+				if ds := args["doc"]; ds != "" {
+					if jv, err := parseJV([]byte(ds)); err == nil {
+						rc.Docs = []frontDoc{{jv, "replay"}}
+					}
+				}
+			}
+			c01FrontCueEmit(out, rc, hist)
 		}
 		for i := from; i < from+n; i++ {
 			profile := i % 3
